@@ -163,8 +163,41 @@ theorem tight_visitExpire {w : W} (g : Good w) (cl : CurLive w.k) (hne : w.k.rec
       exact (dk_addExpried _ rid).trans (dk_modR w rid _ (by intro _; rfl) (by intro _; rfl))
     · simp at h
 
-theorem tight_fireTimeout {w : W} (g : Good w) (cl : CurLive w.k) (hne : w.k.recs ≠ []) (rid : Nat) : Tight (w.fireTimeout rid) := by
+/-- the sweeper takes a due long-table entry in hand -/
+theorem tight_collectT {w : W} (g : Good w) (cl : CurLive w.k) (hne : w.k.recs ≠ []) (rid : Nat) : Tight (w.collectT rid) := by
+  have l1 := g.lv.collectT rid
+  have u : RecsUp (w.collectT rid).k w.k := RecsUp.modRec _ rid _ (fun _ => rfl) (fun _ h => ⟨h.pos, h.hold, h.ended, h.fin⟩)
+  exact Tight.of_good (g.of_up l1 u) (recs_ne_of_ids u.ids hne) (cl.of_dk (dk_modR w rid _ (by intro _; rfl) (by intro _; rfl)) l1)
+
+/-- the timeout of a live queued request, up to the counter / notice / wake pass -/
+theorem tight_timeout_fire {w : W} (g : Good w) (cl : CurLive w.k) (rid : Nat) (hs : w.k.hasRec rid ∧ (w.k.getR rid).tSched.isSome = true) :
+    Tight ((((w.modR rid (fun r => { r with timeouted := true })).modK (·.settleWait)).ctr (fun y => { y with waitCount := y.waitCount - 1 })).dropT rid) := by
   have l := g.lv
+  have l1 : Lv (w.modR rid (fun r => { r with timeouted := true })) zero :=
+    l.modR rid _ (fun _ => rfl) (l.rc.modRec_plain rid _ (fun _ => rfl) (fun _ => rfl) (fun _ => rfl)) (by
+      intro r _ _ hf; simp at hf)
+  have n1 : Nz (w.modR rid (fun r => { r with timeouted := true })) none :=
+    g.nz.of_up (RecsUp.modRec _ rid _ (fun _ => rfl) (fun _ h => ⟨h.pos, h.hold, h.ended, h.fin⟩))
+  have c1 := cl.of_dk (dk_modR w rid (fun r => { r with timeouted := true }) (by intro _; rfl) (by intro _; rfl)) l1
+  have hh1 : (w.modR rid (fun r => { r with timeouted := true })).k.hasRec rid := (hasRec_modR _ rid rid _ (by intro _; rfl)).mpr hs.1
+  have g1 : (w.modR rid (fun r => { r with timeouted := true })).k.getR rid = { (w.k.getR rid) with timeouted := true } :=
+    getR_modRec_same _ _ _ (fun _ => rfl) hs.1
+  have ht1 : ((w.modR rid (fun r => { r with timeouted := true })).k.getR rid).tSched.isSome = true := by rw [g1]; exact hs.2
+  have l2 : Lv ((w.modR rid (fun r => { r with timeouted := true })).modK (·.settleWait)) zero :=
+    l1.modK _ (settleWait_rc zero_nonneg l1.rc) (RecsLe.settleWait _)
+  have n2 : Nz ((w.modR rid (fun r => { r with timeouted := true })).modK (·.settleWait)) none := by
+    have := nz_settleWait n1.nd n1.nz
+    exact ⟨this.1, this.2⟩
+  have c2 := c1.of_dk (dk_modK _ (·.settleWait) (DepthKeep.settleWait _)) l2
+  obtain ⟨k1, k2⟩ := settleWait_keep zero_nonneg l1.rc rid hh1 (wheel_of_t ht1)
+  have g3 : Good (((w.modR rid (fun r => { r with timeouted := true })).modK (·.settleWait)).ctr (fun y => { y with waitCount := y.waitCount - 1 })) :=
+    (⟨l2, n2⟩ : Good _).ctr _
+  have t4 := tight_dropT g3 c2 (recs_ne_of_hasRec k1) rid ⟨k1, by
+    show ((w.modR rid (fun r => { r with timeouted := true })).k.settleWait.getR rid).tSched.isSome = true
+    rw [k2.tSched]; exact ht1⟩
+  exact t4
+
+theorem tight_fireTimeout {w : W} (g : Good w) (cl : CurLive w.k) (hne : w.k.recs ≠ []) (rid : Nat) : Tight (w.fireTimeout rid) := by
   unfold W.fireTimeout
   simp only []
   split
@@ -173,29 +206,7 @@ theorem tight_fireTimeout {w : W} (g : Good w) (cl : CurLive w.k) (hne : w.k.rec
   have hs := hasT_spec w.k rid (by simpa using hg)
   split
   · exact tight_dropT g cl hne rid hs
-  · have l1 : Lv (w.modR rid (fun r => { r with timeouted := true })) zero :=
-      l.modR rid _ (fun _ => rfl) (l.rc.modRec_plain rid _ (fun _ => rfl) (fun _ => rfl) (fun _ => rfl)) (by
-        intro r _ _ hf; simp at hf)
-    have n1 : Nz (w.modR rid (fun r => { r with timeouted := true })) none :=
-      g.nz.of_up (RecsUp.modRec _ rid _ (fun _ => rfl) (fun _ h => ⟨h.pos, h.hold, h.ended, h.fin⟩))
-    have c1 := cl.of_dk (dk_modR w rid (fun r => { r with timeouted := true }) (by intro _; rfl) (by intro _; rfl)) l1
-    have hh1 : (w.modR rid (fun r => { r with timeouted := true })).k.hasRec rid := (hasRec_modR _ rid rid _ (by intro _; rfl)).mpr hs.1
-    have g1 : (w.modR rid (fun r => { r with timeouted := true })).k.getR rid = { (w.k.getR rid) with timeouted := true } :=
-      getR_modRec_same _ _ _ (fun _ => rfl) hs.1
-    have ht1 : ((w.modR rid (fun r => { r with timeouted := true })).k.getR rid).tSched.isSome = true := by rw [g1]; exact hs.2
-    have l2 : Lv ((w.modR rid (fun r => { r with timeouted := true })).modK (·.settleWait)) zero :=
-      l1.modK _ (settleWait_rc zero_nonneg l1.rc) (RecsLe.settleWait _)
-    have n2 : Nz ((w.modR rid (fun r => { r with timeouted := true })).modK (·.settleWait)) none := by
-      have := nz_settleWait n1.nd n1.nz
-      exact ⟨this.1, this.2⟩
-    have c2 := c1.of_dk (dk_modK _ (·.settleWait) (DepthKeep.settleWait _)) l2
-    obtain ⟨k1, k2⟩ := settleWait_keep zero_nonneg l1.rc rid hh1 (wheel_of_t ht1)
-    have g3 : Good (((w.modR rid (fun r => { r with timeouted := true })).modK (·.settleWait)).ctr (fun y => { y with waitCount := y.waitCount - 1 })) :=
-      (⟨l2, n2⟩ : Good _).ctr _
-    have t4 := tight_dropT g3 c2 (recs_ne_of_hasRec k1) rid ⟨k1, by
-      show ((w.modR rid (fun r => { r with timeouted := true })).k.settleWait.getR rid).tSched.isSome = true
-      rw [k2.tSched]; exact ht1⟩
-    exact (t4.ctr _).reply _ _ _ _
+  · exact good_wake (((tight_timeout_fire g cl rid hs).ctr _).reply _ _ _ _)
 
 /-- the end of a hold by the expiry sweep, up to the counters / notice / wake pass -/
 theorem tight_expire_release {w : W} (g : Good w) (cl : CurLive w.k) (rid : Nat) (hs : w.k.hasRec rid ∧ (w.k.getR rid).eSched.isSome = true) :
